@@ -15,12 +15,24 @@ POWERS = [("003K", 3000), ("015K", 15000), ("025K", 25000), ("29K9", 30000)]
 METER = ["basic", "ext", "ext2"]
 
 
+# Frozen copies (pinned commit) of the model-tag tables: they are the documentation of WHICH models have which blocks.
+# The configuration space and the 'supported blocks are present' oracle use these, not the library's live tuples - a
+# changed tuple in the library must not silently change what is enumerated.
+REF_ET_TAGS = ('ETU', 'ETL', 'ETR', 'BHN', 'EHU', 'BHU', 'EHR', 'BTU', 'ESN', 'EBN', 'EMN', 'SPN', 'ERN', 'ESC', 'HLB', 'HMB',
+               'HBB', 'EOA', 'ETT', 'HTA', 'HUB', 'AEB', 'SPB', 'CUB', 'EUB', 'HEB', 'ERB', 'BTT', 'ETF', 'ARB', 'URB', 'EBR',
+               'AES', 'HHI', 'ABP', 'EHB', 'HSB', 'HUA', 'CUA', 'ETC', 'BTC', 'BTN')
+REF_745 = ('ETT', 'HTA', 'HUB', 'AEB', 'SPB', 'CUB', 'EUB', 'HEB', 'ERB', 'BTT', 'ETF', 'ARB', 'URB', 'EBR',
+           'ESN', 'EBN', 'EMN', 'SPN', 'ERN', 'ESC', 'HLB', 'HMB', 'HBB', 'EOA')
+REF_DT_TAGS = ('DTU', 'DTS', 'MSU', 'MST', 'MSC', 'DSN', 'DTN', 'DST', 'NSU', 'SSN', 'SST', 'SSX', 'SSY', 'PSB', 'PSC')
+REF_ES_TAGS = ('ESU', 'EMU', 'ESA', 'BPS', 'BPU', 'EMJ', 'IJL')
+
+
 def et_tags(goodwe_model):
-    return ["XXX"] + list(goodwe_model.ET_MODEL_TAGS)
+    return ["XXX"] + list(REF_ET_TAGS)
 
 
 def dt_tags(goodwe_model):
-    return ["XXX"] + list(goodwe_model.DT_MODEL_TAGS)
+    return ["XXX"] + list(REF_DT_TAGS)
 
 
 def space():
@@ -34,7 +46,7 @@ def space():
         for pw in (0, 1):
             for meter in (0, 1):
                 out.append(("DT", tag, pw, (meter,)))
-    for tag in list(gm.ES_MODEL_TAGS) + ["XXX"]:
+    for tag in list(REF_ES_TAGS) + ["XXX"]:
         for fw in ("2525B", "04046", "1010E"):
             out.append(("ES", tag, 0, (fw,)))
     return out
